@@ -7,11 +7,14 @@ from pydiffx.writer import DiffXWriter
 TEXTS = ['hello\nworld', '#.change:\n@@ -1 +1 @@\n', 'x' * 130 + '\ny',
          'a\r\nb\r\n', '\n\n\n', 'tail', 'wörld ☃\n', '﻿bom',
          'nul\x00byte\n', 'lone\rcr', '  indented\n    more\n',
-         '#diffx: version=1.0\n', '਀\u000a', 'a\nb\r\nc']
+         '#diffx: version=1.0\n', '਀\u000a', 'a\nb\r\nc',
+         # no LF at all, ends in CR (classic Mac); LF first, CRLF later
+         'mac\rtext\r', 'first\nsecond\r\nthird\n']
 DIFFS = [b'--- a\n+++ b\n@@ -1 +1 @@\n-old\n+new\n',
          b'@@ -1,2 +1,2 @@\n a\n-b\n+c\n\\ No newline at end of file',
          b'\x00\x01\xff\xfe binary', b'#...diff: length=5\n', b'x\r\ny\r\n',
-         b'Binary files differ\n']
+         b'Binary files differ\n', b'old mac\rfile\r',
+         b'l1\nl2\r\nl3\n']
 ENCODINGS = [None, 'utf-8', 'utf-16', 'utf-16-le', 'utf-32-be', 'latin-1',
              'utf-8-sig', 'UTF-16', 'utf_32', 'utf16', 'U16', 'U32', 'utf8',
              'cp1252', 'L1']
